@@ -25,6 +25,7 @@ import (
 type schedVec struct {
 	Gates []int   `json:"gates"` // LogValuer gates in the record of process i+1
 	Big   []int   `json:"big"`   // 1: the record of process i+1 has a text line longer than 16 KiB
+	Fault []int   `json:"fault"` // what the writer does with the line of process i+1 (faultNone, faultErr, ...)
 	Sched [][]any `json:"sched"` // [p, kind, status]; kind 1 = released by the controller, 2 = woke up on the free mutex
 	Order []int   `json:"order"` // predicted order of the records' lines
 }
@@ -51,6 +52,13 @@ func (v *schedVec) steps() ([]schedStep, error) {
 	return out, nil
 }
 
+func (v *schedVec) fault(p int) int {
+	if p-1 < len(v.Fault) {
+		return v.Fault[p-1]
+	}
+	return faultNone
+}
+
 func (v *schedVec) big(p int) bool { return p-1 < len(v.Big) && v.Big[p-1] == 1 }
 
 func schedKey(steps []schedStep) string {
@@ -75,6 +83,10 @@ type gateWriter struct {
 	s      *sched.Sched
 	inside atomic.Int32
 
+	faults  map[string]int // goroutine name -> what its Write does
+	clock   atomic.Int64   // orders the first Write error and the returns of the calls
+	errorAt atomic.Int64   // clock value of the first Write error (0: none yet)
+
 	mu       sync.Mutex
 	chunks   [][]byte
 	overlaps []string
@@ -89,6 +101,18 @@ func (w *gateWriter) Write(p []byte) (int, error) {
 		w.mu.Unlock()
 	}
 	w.s.Gate("write")
+	switch w.faults[name] {
+	case faultErr, faultShort:
+		w.errorAt.CompareAndSwap(0, w.clock.Add(1))
+		w.inside.Add(-1)
+		if w.faults[name] == faultShort {
+			return len(p) / 2, errInjected
+		}
+		return 0, errInjected
+	case faultPanic:
+		w.inside.Add(-1)
+		panic(panicInjected)
+	}
 	// The bytes are read at the end of the call, as a slow writer would.
 	cp := append([]byte(nil), p...)
 	w.mu.Lock()
@@ -206,14 +230,14 @@ func runSchedule(res *vh.Result, st *schedStats, raw []byte, v *schedVec, steps 
 	ctx := context.Background()
 	s := sched.New()
 	s.Grace = time.Millisecond
-	w := &gateWriter{s: s}
+	w := &gateWriter{s: s, faults: map[string]int{}}
 	variant := []int{2, 1, 4, 5}[salt%4] // no AddSource: the pc would differ from the reference only in theory, keep it simple
 	thr := []int{-4, 0, 8}[(salt>>4)%3]
 	opts := makeOpts(variant, thr)
 	root := slogutil.NewJSONHybridHandler(w, opts)
 	tree := buildSchedTree(root, salt)
 	ref := newReference(opts)
-	key := fmt.Sprintf("sched gates=%v big=%v handlers=%s schedule=[%s]", v.Gates, v.Big, cfg, schedKey(steps))
+	key := fmt.Sprintf("sched gates=%v big=%v faults=%v handlers=%s schedule=[%s]", v.Gates, v.Big, v.Fault, cfg, schedKey(steps))
 	detail := func(extra map[string]any) map[string]any {
 		d := map[string]any{"stage": "S", "schedule": json.RawMessage(raw), "config": cfg, "salt": salt, "opts": variantName(variant)}
 		for k, x := range extra {
@@ -228,6 +252,8 @@ func runSchedule(res *vh.Result, st *schedStats, raw []byte, v *schedVec, steps 
 	wantMsg := make([]string, np+1)
 	wantErr := make([]bool, np+1)
 	herr := make([]error, np+1)
+	hpanic := make([]any, np+1)
+	retAt := make([]int64, np+1)
 	gids := make([]uint64, np+1)
 	levels := []int{8, 0, 7, 9}
 	// In the "samerec" configuration the first two calls with the same gate
@@ -283,9 +309,12 @@ func runSchedule(res *vh.Result, st *schedStats, raw []byte, v *schedVec, steps 
 		p := p
 		h := tree.hs[hname[p]]
 		rec := recs[p]
+		w.faults[names[p]] = v.fault(p)
 		s.Go(names[p], func() {
 			gids[p] = curGID()
-			herr[p] = h.Handle(ctx, rec)
+			// Panics are recovered per call, as a server does per request.
+			hpanic[p], _ = vh.Try(func() { herr[p] = h.Handle(ctx, rec) })
+			retAt[p] = w.clock.Add(1)
 		})
 	}
 
@@ -322,7 +351,16 @@ func runSchedule(res *vh.Result, st *schedStats, raw []byte, v *schedVec, steps 
 			deadline := time.Now().Add(longTimeout)
 			arrived := 0
 			for arrived == 0 && time.Now().Before(deadline) {
+				order := []int{}
+				if blocked[stp.p] {
+					order = append(order, stp.p) // the predicted one first: a call that gives up passes no gate
+				}
 				for q := range blocked {
+					if q != stp.p {
+						order = append(order, q)
+					}
+				}
+				for _, q := range order {
 					if stt, pt := s.Poll(names[q], 2*time.Millisecond); stt != sched.Blocked {
 						arrived, got = q, describe(stt, pt)
 						break
@@ -422,14 +460,39 @@ func runSchedule(res *vh.Result, st *schedStats, raw []byte, v *schedVec, steps 
 		}
 		return detail(e)
 	}
+	// What each call owes.  After the writer has returned an error (a failing
+	// writer is outside the property) a call may also give up: return an error
+	// and write nothing; never a nil return without a line.
+	gaveUp := make([]bool, np+1)
 	for p := 1; p <= np; p++ {
 		if pv := s.PanicOf(names[p]); pv != nil {
-			res.Mismatch(key+" panic", fmt.Sprintf("Handle of p%d panicked: %v", p, pv), d(nil))
-			return out, nil
+			return out, fmt.Errorf("harness goroutine p%d panicked: %v", p, pv)
 		}
-		if herr[p] != nil {
-			res.Mismatch(key+" error", fmt.Sprintf("Handle of p%d returned %v", p, herr[p]), d(nil))
-			return out, nil
+		afterError := w.errorAt.Load() != 0 && retAt[p] > w.errorAt.Load()
+		if afterError && hpanic[p] == nil && herr[p] != nil && v.fault(p) != faultErr && v.fault(p) != faultShort {
+			gaveUp[p] = true // checked below: no line of p in the output
+			continue
+		}
+		switch v.fault(p) {
+		case faultErr, faultShort:
+			if hpanic[p] != nil || herr[p] == nil {
+				res.Mismatch(key+" writer error", fmt.Sprintf("the writer returned an error for p%d: Handle must return an error (got error %v, panic %v)", p, herr[p], hpanic[p]), d(nil))
+				return out, nil
+			}
+		case faultPanic:
+			if hpanic[p] != any(panicInjected) {
+				res.Mismatch(key+" writer panic", fmt.Sprintf("the writer panicked for p%d: the panic must reach the caller (got error %v, panic %v)", p, herr[p], hpanic[p]), d(nil))
+				return out, nil
+			}
+		default:
+			if hpanic[p] != nil {
+				res.Mismatch(key+" panic", fmt.Sprintf("Handle of p%d panicked: %v", p, hpanic[p]), d(nil))
+				return out, nil
+			}
+			if herr[p] != nil {
+				res.Mismatch(key+" error", fmt.Sprintf("Handle of p%d returned %v (no writer error before it)", p, herr[p]), d(nil))
+				return out, nil
+			}
 		}
 	}
 	if len(w.overlaps) > 0 {
@@ -463,11 +526,21 @@ func runSchedule(res *vh.Result, st *schedStats, raw []byte, v *schedVec, steps 
 		order = append(order, who)
 	}
 	for p := 1; p <= np; p++ {
-		if count[p] != 1 {
-			res.Mismatch(key+" count", fmt.Sprintf("record of p%d appears %d times in the output", p, count[p]), d(nil))
+		wantN := 1
+		if v.fault(p) != faultNone || gaveUp[p] {
+			wantN = 0 // the writer refused that line itself, or Handle said it wrote nothing
+		}
+		if count[p] != wantN {
+			res.Mismatch(key+" count", fmt.Sprintf("record of p%d appears %d times in the output, want %d", p, count[p], wantN), d(nil))
 		}
 	}
-	if len(w.chunks) != np {
+	nGood := 0
+	for p := 1; p <= np; p++ {
+		if v.fault(p) == faultNone && !gaveUp[p] {
+			nGood++
+		}
+	}
+	if len(w.chunks) != nGood {
 		st.extraWrites++
 	}
 	st.partialWrites += w.partial
@@ -580,8 +653,15 @@ func replaySched(args []string) error {
 			switch {
 			case hung == 3:
 				hangs++
-				res.Mismatch(fmt.Sprintf("sched gates=%v handlers=%s schedule=[%s] hang", v.Gates, cfg, schedKey(steps)),
-					"a call the model says is enabled never proceeded (3 runs out of 3): "+last,
+				what := "a call the model says is enabled never proceeded (3 runs out of 3): " + last
+				for _, f := range v.Fault {
+					if f == faultPanic {
+						what = wedgedWhat + "; " + what
+						break
+					}
+				}
+				res.Mismatch(fmt.Sprintf("sched gates=%v faults=%v handlers=%s schedule=[%s] hang", v.Gates, v.Fault, cfg, schedKey(steps)),
+					what,
 					map[string]any{"stage": "S", "schedule": json.RawMessage(raw), "config": cfg, "salt": salt})
 			case hung > 0:
 				hangFlakes++
